@@ -68,6 +68,12 @@ def gen_stream(rng, cf_names, kind):
         ent.append(('DecodeParms', D([('Type', N('CryptFilterDecodeParms')), ('Name', N(name))])))
     elif kind == 'crypt-noparms':
         ent.append(('Filter', N('Crypt')))
+    elif kind == 'crypt-array':
+        # two filters, the decode parameters as the parallel array (7.3.8.2, Table 5)
+        ent.append(('Filter', A([N('Crypt'), N('ASCIIHexDecode')])))
+        ent.append(('DecodeParms', A([D([('Name', N(cf_names[-1]))]), NULL])))
+    elif kind == 'embedded':
+        ent.append(('Type', N('EmbeddedFile')))
     elif kind == 'dictstr':
         ent.append(('Desc', S(rascii(rng, rng.randint(1, 30)))))
         if rng.random() < 0.5:
@@ -76,7 +82,7 @@ def gen_stream(rng, cf_names, kind):
     return ST(ent, content)
 
 
-def gen_doc(rng, cf_names, feats_allowed):
+def gen_doc(rng, cf_names, feats_allowed, force=None):
     """(doc text, features)"""
     nobj = rng.randint(2, 8)
     ids = rng.sample(range(1, 40), nobj + 1)
@@ -117,6 +123,8 @@ def gen_doc(rng, cf_names, feats_allowed):
                 o = gen_stream(rng, cf_names, kind)
                 feats.add(kind)
         objects.append(((i, g), o))
+    if force:
+        objects[0] = (objects[0][0], gen_stream(rng, cf_names, force))
     objects.append((cat, D([('Type', N('Catalog')), ('Lang', S(b'en-US'))])))
     rng.shuffle(objects)
     trailer = [('Root', REF(*cat)), ('ID', A([S(rbytes(rng, 16)), S(rbytes(rng, 16))])), ('Size', I(max(ids) + 1))]
@@ -187,6 +195,11 @@ def gen_version(rng, kind):
         kl = rng.choice([40, 48, 56, 64, 72, 80, 88, 96, 104, 112, 120, 128])
         return (lambda o, u: L('v2', xb(o), xb(u), str(kl), str(perms))), 32, [], set()
     em = rng.random() < 0.6
+    if kind in ('v4-eff', 'v4-dparr'):
+        # two crypt filters with different methods; the second one is used by EFF / by one stream's DecodeParms array
+        cfs = CFS([('StdCF', 'aesv2'), ('Other', 'rc4')])
+        return (lambda o, u: L('v4', '1' if em else '0', cfs, xb(b'StdCF'), xb(b'StdCF'), xb(o), xb(u), str(perms))), 32, \
+            ['StdCF', 'Other'], {'eff' if kind == 'v4-eff' else 'dp-array'}
     methods = ['aesv2', 'aesv2', 'rc4', 'id'] if kind == 'v4' else (['aesv3'] if rng.random() < 0.7 else ['aesv3', 'id'])
     names = ['StdCF']
     if rng.random() < 0.5:
@@ -216,8 +229,8 @@ ALL_FEATS = {'metadata', 'xref', 'crypt', 'crypt-noparms', 'dictstr', 'metadata-
 
 def plan(tier):
     if tier == 'quick':
-        return [('v1', 8), ('v2', 14), ('v4', 24), ('r5', 8), ('v5', 2)]
-    return [('v1', 150), ('v2', 400), ('v4', 700), ('r5', 200), ('v5', 40)]
+        return [('v1', 6), ('v2', 10), ('v4', 20), ('r5', 6), ('v5', 1), ('v4-eff', 1), ('v4-dparr', 1), ('direct', 2)]
+    return [('v1', 150), ('v2', 400), ('v4', 700), ('r5', 200), ('v5', 40), ('v4-eff', 10), ('v4-dparr', 10), ('direct', 20)]
 
 
 def gen_cases(rng, tier):
@@ -226,15 +239,21 @@ def gen_cases(rng, tier):
     specs = []
     for kind, n in plan(tier):
         for _ in range(n):
-            mk, limit, cf_names, vfeats = gen_version(rng, kind)
-            owner, user, wrongs = gen_pws(rng, limit, kind in ('r5', 'v5'))
-            doc, feats = gen_doc(rng, cf_names, ALL_FEATS)
+            vkind = rng.choice(['v1', 'v2', 'v4', 'r5']) if kind == 'direct' else kind
+            mk, limit, cf_names, vfeats = gen_version(rng, vkind)
+            owner, user, wrongs = gen_pws(rng, limit, vkind in ('r5', 'v5'))
+            force = {'v4-eff': 'embedded', 'v4-dparr': 'crypt-array'}.get(kind)
+            doc, feats = gen_doc(rng, cf_names, ALL_FEATS if force is None else set(), force)
             ver = mk(owner, user)
             rnd = [rbytes(rng, 16), rbytes(rng, 16), rbytes(rng, 4)]
             ivs = [rbytes(rng, 16) for _ in range(90)]
-            enc_line = L('enc', doc, ver, L('rnd', *[xb(b) for b in rnd]), L('ivs', *[xb(b) for b in ivs]))
-            specs.append({'kind': kind, 'doc': doc, 'ver': ver, 'enc': enc_line, 'owner': owner, 'user': user,
-                          'wrongs': wrongs, 'feats': feats | vfeats})
+            opts = {'v4-eff': [L('eff', xb(b'Other'))], 'direct': ['direct']}.get(kind, [])
+            if kind == 'direct':
+                vfeats = vfeats | {'direct-encrypt'}
+            enc_line = L('enc', doc, ver, L('rnd', *[xb(b) for b in rnd]), L('ivs', *[xb(b) for b in ivs]),
+                         *([L('opts', *opts)] if opts else []))
+            specs.append({'kind': kind, 'vkind': vkind, 'doc': doc, 'ver': ver, 'enc': enc_line, 'owner': owner, 'user': user,
+                          'wrongs': wrongs, 'feats': feats | vfeats, 'special': bool(opts) or force is not None})
     if not (impl and runner):
         return [(s['enc'], {'kind': 'enc-' + s['kind'], 'nontrivial': True}) for s in specs]
     impl_enc = [vlib.split_impl(l)[0] for l in vlib.run_lines(impl, [s['enc'] for s in specs], timeout=900, shards=8)]
@@ -246,13 +265,17 @@ def gen_cases(rng, tier):
             cases.append((s['enc'], {'kind': 'encfail-' + s['kind'], 'nontrivial': True, 'feats': sorted(s['feats'])}))
             continue
         implenc, isoenc = ie[len('(encdoc '):-1], me[len('(encdoc '):-1]
-        has_owner = bool(s['owner']) or s['kind'] in ('r5', 'v5')
+        has_owner = bool(s['owner']) or s['vkind'] in ('r5', 'v5')
         pws = [('right', s['user'])] + ([('right', s['owner'])] if has_owner and s['owner'] != s['user'] else []) \
             + [('wrong', w) for w in s['wrongs']]
         tags = {'kind': s['kind'], 'nontrivial': True, 'feats': sorted(s['feats']), 'no_owner': not s['owner']}
         if s['kind'] == 'v5':
             # Algorithm 2.B costs seconds per hash in the extracted specification: one line per piece of work
             parts = [([], [])] + [([p], ['noreenc']) for p in pws[:3]]
+        elif s['special']:
+            # features lopdf's writer cannot express (EFF, direct encryption dictionary) or that the spec-side document
+            # alone carries: only the direction specification -> lopdf is meaningful beyond plain opening
+            parts = [(pws, ['noreenc'] if s['kind'] != 'v4-dparr' else [])]
         else:
             parts = [(pws, [])]
         for ps, fl in parts:
@@ -262,6 +285,14 @@ def gen_cases(rng, tier):
 
 
 def classify(line, tags, model_out, impl_out, verdict):
+    """known-finding classes, decided on the INPUT (features of the generated document / encryption dictionary)"""
+    feats = set(tags.get('feats', []))
+    if 'eff' in feats:
+        return 'eff-ignored'
+    if 'dp-array' in feats:
+        return 'decodeparms-array'
+    if 'direct-encrypt' in feats:
+        return 'direct-encrypt-dict'
     return None
 
 
@@ -293,3 +324,27 @@ SPEC = {
 
 def run(ctx):
     return propcheck.standard_check(ctx, SPEC)
+
+
+MANIFEST = {
+    'level_text': 'Machine-checked refinement proofs (Coq) between the executable model of lopdf\'s standard security handler '
+                  '(written from the Rust source) and an independent transcription of ISO 32000-1/-2 7.6 in the standard\'s own '
+                  'formulation (Algorithms 1, 1.A, 2, 2.A, 2.B, 3-13, crypt filter selection, the rule saying what is encrypted): '
+                  'algorithm by algorithm lopdf computes what the standard defines (keys, O, U, OE, UE, Perms, per-object keys, '
+                  'ciphertexts), every difference in formulation being a lemma (byte sum vs big-endian value mod 3, padding, '
+                  'P rebuilt from bit flags for conforming words, loop shapes of 2.B, counters 19..0, CBC over blocks); every '
+                  'indirect object is written by lopdf exactly as by the standard\'s writer, strings or streams written by either '
+                  'side are decrypted by the other, objects written by the standard\'s writer are decrypted by lopdf.  The '
+                  'EXTRACTED specification is the independent implementation: on every generated case lopdf opens what it '
+                  'encrypted, it opens what lopdf encrypted, and it reproduces lopdf\'s output byte for byte from the random '
+                  'choices read back (V1, V2 40..128, V4 RC4/AESV2/None, R5, R6).',
+    'level_note': 'Partial: primitive correctness (MD5, SHA-2, AES, RC4 in Gallina) is by published vectors and differential runs '
+                  'against the crates, not by proof; AES decryption inverting encryption is a hypothesis; password preparation '
+                  '(PDFDocEncoding/SASLprep) is an oracle (ASCII passwords); the specification reader\'s own object/document '
+                  'round trip and the document-level composition are computed/sampled, not proved; Algorithm 13 / 2.A are '
+                  'one-directional (lopdf accepts what the standard accepts). Open known findings: EFF ignored, DecodeParms '
+                  'arrays, direct encryption dictionary. Trusted: Coq kernel, translator part Crypto, extraction. No axioms.',
+    'technique': 'Coq refinement proofs model-vs-standard + extracted specification as independent implementation in a two-way '
+                 'differential check + direct property evaluation on the crate',
+    'design_ref': 'DESIGN.md 6 C06',
+}
